@@ -20,6 +20,8 @@ import LianVerif.Drv.Table
 import LianVerif.Drv.BlockView
 import LianVerif.Drv.Workspace
 import LianVerif.Drv.EntryPoints
+import LianVerif.Drv.GirExec
+import LianVerif.Drv.LowerPy
 
 open Lean LianVerif.Drv
 
@@ -46,6 +48,10 @@ def dispatch (j : Json) : Except String Json := do
   | "blockview" => LianVerif.Drv.BlockView.handle j
   | "workspace" => LianVerif.Drv.Workspace.handle j
   | "entrypoints" => LianVerif.Drv.EntryPoints.handle j
+  | "girexec" => LianVerif.Drv.GirExec.handle j
+  | "lowerpy" => LianVerif.Drv.LowerPy.handleLower j
+  | "evalpy" => LianVerif.Drv.LowerPy.handleEval j
+  | "modelexec" => LianVerif.Drv.LowerPy.handleModelExec j
   | _ => throw s!"unknown model {m}"
 
 partial def loop (hin hout : IO.FS.Stream) : IO Unit := do
